@@ -10,6 +10,7 @@
 (*   Auth {case, s, tok, ok} | Handler {case, tmpl, tag} |                 *)
 (*   Parse {case, ok, params} | Respond {case, type, value} |              *)
 (*   MwLeave {case, i} | Return {case, ok, type, value, panic}             *)
+(*   Raw {case, status, want, bodyOK}  a request matching no operation     *)
 (*   Race {reports}                    what the race detector printed      *)
 (***************************************************************************)
 EXTENDS Codec, TLC, Json
@@ -62,10 +63,17 @@ Return == /\ Is("Return") /\ Mine /\ S.pc = "responded" /\ S.left = S.entered
           /\ st' = [st EXCEPT ![Ev.case].pc = "done"]
           /\ stats' = [stats EXCEPT !.accepted = @ + 1, !.nontrivial = @ + 1]
           /\ l' = l + 1
+\* a request that matches no operation (unrouted path, spec-file route) handed to ServeHTTP next to the client calls:
+\* it is answered on its own - not found / the spec file - whatever else is in flight
+Raw == /\ Is("Raw") /\ Mine /\ S.pc = "idle"
+       /\ Ev.panic = "" /\ Ev.status = Ev.want /\ Ev.bodyOK
+       /\ st' = [st EXCEPT ![Ev.case].pc = "done"]
+       /\ stats' = [stats EXCEPT !.accepted = @ + 1]
+       /\ l' = l + 1
 Race == /\ Is("Race") /\ Ev.reports = 0
         /\ stats' = [stats EXCEPT !.accepted = @ + 1]
         /\ l' = l + 1 /\ UNCHANGED st
-Step == Cases \/ Call \/ MwEnter \/ Auth \/ Handler \/ Parse \/ Respond \/ MwLeave \/ Return \/ Race
+Step == Cases \/ Raw \/ Call \/ MwEnter \/ Auth \/ Handler \/ Parse \/ Respond \/ MwLeave \/ Return \/ Race
 
 \* an unexplained event poisons only its own request; the rest of the log is still judged
 Skip == /\ l <= Len(Trace) /\ ~ENABLED Step
